@@ -307,18 +307,6 @@ Proof.
   - congruence.
 Qed.
 
-Lemma rel_chain1 : releases 0 (run_tool (TChain 1)).
-Proof.
-  cbn [run_tool]. unfold run_chain. cbn [seq chain_body]. rel0.
-Qed.
-Lemma rel_chain_ok n w i v : i < n -> fst (run_tool (TChain n) w) = Ok v -> rel_at i (snd (run_tool (TChain n) w)).
-Proof.
-  intros Hi. cbn [run_tool]. unfold bind, run_chain.
-  pose proof (chain_body_ok_releases (chain_yield (seq 0 n)) (fun v => wfG_chain_yield true _ v) (seq 0 n) w i) as H.
-  destruct (chain_body (seq 0 n) (chain_yield (seq 0 n)) w) as [[[]|e|] w1]; cbn in *; try discriminate.
-  intros _. apply H; [reflexivity | apply in_seq; lia].
-Qed.
-
 (* ---------- all tools ---------- *)
 (* [valid t n]: tool [t] applied to [n] sources.  Excluded: batched with n < 1 (raises before it owns
    anything) and iter(callable, sentinel) (its "source" is a script). *)
@@ -331,32 +319,16 @@ Definition valid (t : tool) (n : nat) : bool :=
   | _ => Nat.eqb n 1
   end.
 Definition is_ok {A} (o : outcome A) : bool := match o with Ok _ => true | _ => false end.
-(* the one family for which release fails in general: a started chain of two or more iterables *)
-Definition chain_caveat (t : tool) (o : outcome val) : bool :=
-  match t with TChain n => (n <=? 1) || is_ok o | _ => true end.
+Definition is_chain (t : tool) : bool := match t with TChain _ => true | _ => false end.
 
-(* The full statement is false: when the first iterable of a chain fails (or the chain's generator is
-   closed/cancelled elsewhere than through chain.aclose at a yield), the later iterables are never
-   closed.  This is the behaviour of the implementation (only [chain.aclose] closes the owned
-   iterators), so it is reported as a finding rather than a model defect. *)
-Theorem tool_releases_refuted : exists t ss k_e,
-  valid t (length ss) = true /\
-  fst (run_tool t (init_world ss k_e)) <> Fuel /\
-  all_released (snd (run_tool t (init_world ss k_e))) = false.
-Proof.
-  exists (TChain 2), [[VInt 1]; [VInt 2]], (Some (0, XInj 0 false)).
-  vm_compute. repeat split; discriminate.
-Qed.
-
-Theorem tool_releases_partial : forall t ss k_e, valid t (length ss) = true ->
+(* every family but chain (chain: Proofs/ReleaseChain.v; all tools together: Proofs/ReleaseAll.v) *)
+Theorem tool_releases_nonchain : forall t ss k_e, valid t (length ss) = true -> is_chain t = false ->
   let w0 := init_world ss k_e in
-  fst (run_tool t w0) <> Fuel ->
-  chain_caveat t (fst (run_tool t w0)) = true ->
-  all_released (snd (run_tool t w0)) = true.
+  fst (run_tool t w0) <> Fuel -> all_released (snd (run_tool t w0)) = true.
 Proof.
-  intros t ss k_e Hv w0 Hf Hc. apply all_released_intro. intros i Hi.
+  intros t ss k_e Hv Hc w0 Hf. apply all_released_intro. intros i Hi.
   rewrite tool_length in Hi. unfold w0 in Hi. rewrite init_world_length in Hi.
-  destruct t; cbn [valid] in Hv; try discriminate Hv;
+  destruct t; cbn [valid] in Hv; try discriminate Hv; try discriminate Hc;
     try (apply andb_prop in Hv; destruct Hv as [Hz Hv]);
     apply Nat.eqb_eq in Hv; rewrite Hv in Hi;
     try (assert (i = 0) by lia; subst i).
@@ -377,11 +349,6 @@ Proof.
   - apply rel_cycle; assumption.
   - apply rel_accumulate; assumption.
   - apply rel_batched; assumption.
-  - cbn [chain_caveat] in Hc. apply orb_prop in Hc. destruct Hc as [Hc|Hc].
-    + apply Nat.leb_le in Hc. assert (En : n = 1) by lia. clear Hv. subst n. assert (i = 0) by lia. subst i.
-      apply rel_chain1; assumption.
-    + destruct (fst (run_tool (TChain n) w0)) as [v| |] eqn:E; try discriminate Hc.
-      eapply rel_chain_ok; eassumption.
   - apply rel_chain_unstarted; assumption.
   - apply rel_compress; assumption.
   - apply rel_dropwhile; assumption.
@@ -397,23 +364,12 @@ Proof.
   - apply rel_reduce; assumption.
 Qed.
 
-Definition is_chain (t : tool) : bool := match t with TChain _ => true | _ => false end.
-(* every family but chain, as stated in the assignment *)
-Theorem tool_releases : forall t ss k_e, valid t (length ss) = true -> is_chain t = false ->
-  let w0 := init_world ss k_e in
-  fst (run_tool t w0) <> Fuel -> all_released (snd (run_tool t w0)) = true.
-Proof.
-  intros t ss k_e Hv Hn w0 Hf. apply tool_releases_partial; auto.
-  destruct t; try reflexivity. discriminate Hn.
-Qed.
-
 Example valid_ex : valid (TZipLongest 3 VFill) (length [[VInt 1]; []; [VInt 2; VInt 3]]) = true
-                   /\ valid (TBatched 2 true) 1 = true /\ valid (TChainUnstartedClose 2) 2 = true.
+                   /\ valid (TBatched 2 true) 1 = true /\ valid (TChainUnstartedClose 2) 2 = true
+                   /\ valid (TChain 3) 3 = true.
 Proof. repeat split. Qed.
 
 Print Assumptions scoped_releases.
 Print Assumptions close_all_releases.
 Print Assumptions chain_yield_genexit_releases.
-Print Assumptions tool_releases_refuted.
-Print Assumptions tool_releases_partial.
-Print Assumptions tool_releases.
+Print Assumptions tool_releases_nonchain.
